@@ -1,8 +1,61 @@
 import BrushVerif.Model.Wire
-/-! Driver for C08 (stub until the property's model exists). -/
+import BrushVerif.Model.Pattern
+import BrushVerif.Spec.Glob
+/-! Driver for C08.
+* `T <ext> <pat>` → `R=<regex text>`
+* `H <ext> <pat>` → `1`/`0`
+* `M <ext> <nocase> <pat> <s>…` → `<impl> <full> <spec> <features>`: per subject one character each;
+  `impl` = brush's `exactly_matches` as modelled (`U…` when the class text is outside the modelled
+  regex subset), `full` = the same regex anchored to the whole subject, `spec` = POSIX/bash
+  (`-` when the pattern text is outside the well-formed fragment); features: `B` has `!(…)`,
+  `A` backslash+alphanumeric bracket member, `O` regex set operator in bracket text, `C` named class,
+  `K` brush's grammar reads the text differently from POSIX.
+* `G <ext> <nocase> <dotglob> <pat> <name>…` → `<impl names> <spec names|->` (comma separated, escaped)
+-/
 namespace BrushVerif.Drv.C08
-open BrushVerif.Wire
+open BrushVerif.Wire BrushVerif.Pattern BrushVerif.Glob
 
-def handle (_toks : List Str) : Str := "unimplemented".toList
+def flag (t : Str) : Bool := t = ['1']
+def bit (b : Bool) : Char := if b then '1' else '0'
+
+def names (l : List Str) : Str := if l.isEmpty then ['-'] else joinWith [','] (l.map esc)
+
+/-- every string over `alpha` up to length `n`, by length, then in alphabet order -/
+def allStrs (alpha : Str) : Nat → List Str → List Str
+  | 0, level => level
+  | n + 1, level => level ++ allStrs alpha n (level.flatMap fun s => alpha.map fun c => s ++ [c])
+
+def report (ext nc : Bool) (pt : Str) (ss : List Str) : Str :=
+    let q := parsePat ext pt
+    let re := toRe q
+    let sq := specParse ext pt
+    let unmod := q.backslashAlnum || q.setOp
+    let impl : Str := if unmod then ['U'] else ss.map fun s => bit (lineSearch nc re true s)
+    let full : Str := if unmod then ['U'] else ss.map fun s => bit (re.full nc s)
+    let spec : Str := match sq with
+      | none => ['-']
+      | some q' => ss.map fun s => bit (matchB nc q' s)
+    let feats : Str :=
+      (if q.hasBang then ['B'] else []) ++ (if q.backslashAlnum then ['A'] else []) ++
+      (if q.setOp then ['O'] else []) ++ (if q.hasCls then ['C'] else []) ++
+      (match sq with | some q' => if q' = q then [] else ['K'] | none => []) ++ ['.']
+    let nz (x : Str) : Str := if x.isEmpty then ['-'] else x
+    nz impl ++ [' '] ++ nz full ++ [' '] ++ nz spec ++ [' '] ++ feats
+
+def handle (toks : List Str) : Str :=
+  match toks with
+  | [['M', 'X'], e, n, p, a, k] =>
+    report (flag e) (flag n) (unesc p) (allStrs (unesc a) ((parseNat? k).getD 0) [[]])
+  | [['T'], e, p] => "R=".toList ++ esc (patternToRegexStr (flag e) (unesc p))
+  | [['H'], e, p] => [bit (hasGlob (flag e) (unesc p))]
+  | ['M'] :: e :: n :: p :: subs => report (flag e) (flag n) (unesc p) (subs.map unesc)
+  | ['G'] :: e :: n :: d :: p :: ns =>
+    let pt := unesc p
+    let nl := ns.map unesc
+    names (globDir (flag e) (flag n) (flag d) pt nl) ++ [' '] ++
+      (match specGlobDir (flag e) (flag n) (flag d) pt nl with
+       | some l => names l
+       | none => ['?'])
+  | _ => "bad-request".toList
 
 end BrushVerif.Drv.C08
